@@ -580,6 +580,8 @@ class ANF:
 
     def binop(self, op, a, b):
         if isinstance(op, ast.Add) and (_listlike(a) or _listlike(b)):
+            if a[0] in ("list", "tuple") and b[0] in ("list", "tuple"):
+                return (a[0], a[1] + b[1])
             return ("op", "++", a, b)          # sequence concatenation is ordered
         if isinstance(op, ast.Mult) and (_listlike(a) or _listlike(b)):
             return ("op", "**rep", a, b)        # sequence repetition
@@ -635,6 +637,15 @@ class ANF:
                         if k_ == args[0]:
                             return v_
                     return args[1] if len(args) > 1 else C(None)
+                if recv[0] == "f" and not args and not kw:
+                    # <Class>.table_name() / .from_to_node_cols() ...: constant class methods
+                    try:
+                        ci = self.ix.cls(recv[1])
+                        cv = self.ix.method_const(ci, f.attr)
+                    except Exception:
+                        cv = None
+                    if cv is not None:
+                        return _lift(cv)
                 if f.attr in self.method_consts and not args and not kw:
                     return C(self.method_consts[f.attr])
                 if is_const(recv) and isinstance(recv[1], str) and f.attr in STR_METHODS and all(is_const(a) for a in args) and not kw:
@@ -657,6 +668,11 @@ class ANF:
             return args[0]
         if fn[0] == "x" and fn[1] == "builtins.len" and args and args[0][0] in ("list", "tuple"):
             return C(len(args[0][1]))
+        if fn[0] == "x" and fn[1] in ("builtins.list", "builtins.tuple") and len(args) == 1 and args[0][0] in ("list", "tuple") and not kw:
+            return (fn[1].split(".")[-1], args[0][1])
+        if fn[0] == "x" and fn[1] == "builtins.zip" and args and all(a[0] in ("list", "tuple") for a in args) and not kw:
+            n_ = min(len(a[1]) for a in args)
+            return ("list", tuple(("tuple", tuple(a[1][i] for a in args)) for i in range(n_)))
         if fn[0] == "x" and fn[1] in ("builtins.dict", "builtins.list", "builtins.set") and not args and not kw:
             return self.fresh(fn[1].split(".")[-1])
         if fn[0] == "f" and fn[1].endswith(".get_net_option") and len(args) == 2 and is_const(args[1]) \
@@ -750,6 +766,13 @@ def roots(t):
         else:
             out.add(key(x))
     return out
+
+
+def _lift(v):
+    """python constant -> term"""
+    if isinstance(v, (list, tuple)):
+        return ("tuple" if isinstance(v, tuple) else "list", tuple(_lift(x) for x in v))
+    return C(v)
 
 
 def _listlike(t):
